@@ -70,7 +70,7 @@ structure Content where
   paramEnd : Nat                   -- byte position just after the terminator
   frames : List SFrame
   dataBytesLeft : Nat              -- bytes after the last frame
-  deriving Repr
+  deriving DecidableEq, Repr
 
 /-! ### little-endian field access -/
 
